@@ -533,7 +533,14 @@ class WriteRun:
     # ---- periodic hooks --------------------------------------------------------------------------------
     def rotate_hook(self) -> None:
         self.epoch += 1
-        self.tov.token_maintenance()
+        try:
+            self.tov.token_maintenance()
+        except Exception as e:  # noqa: BLE001 - judged: production runs this as an interval task that ends with the exception
+            self.pending.append(Violation(
+                "S1", "token_maintenance:raises",
+                f"the periodic secret rotation raised {type(e).__name__}: {e} (T remembered {len(self.tov.tokens)} token(s) of other "
+                f"nodes): in production the interval task ends here, T never rotates its secrets again and every token it "
+                f"ever issued stays valid beyond the validity window", self.case))
 
     def maint_hook(self) -> None:
         try:
